@@ -49,7 +49,7 @@ CLAIMS = {
 
 CLAIMS["C02"] = dict(
     category="other", design="DESIGN.md 4/C02",
-    technique="AST rules: table-subscript layout classification, polynomial normal forms of stage formulas against templates, "
+    technique="abstract interpretation of stage formulas over tensors with concrete stage axes and abstract state axes (E-EIN); AST rules: table-subscript layout classification, polynomial normal forms of stage formulas against templates, "
               "truth tables, typestate abstract interpretation of the retry loop over the structured control flow",
     text="Decides the structural clause of C02, not the numbers: every reader of a coefficient table uses the [c | A] / [. | b] layout "
          "the tables are written in; the stage time/state arguments of compute_step, algebraic_system and the high-precision Jacobian "
@@ -60,7 +60,7 @@ CLAIMS["C02"] = dict(
          "computed map. Equality 'to rounding / to solver tolerance' of returned values is not decided.")
 CLAIMS["C17"] = dict(
     category="proof", design="DESIGN.md 4/C17",
-    technique="polynomial normal forms (Hermite end conditions, derivative identity); abstract interpretation of the bisection body over order types",
+    technique="polynomial normal forms (Hermite end conditions, derivative identity); dimensional analysis of intermediates (scale discipline); abstract interpretation of the bisection body over order types",
     text="Hermite: the value expression of CubicHermiteInterp is normalised to a polynomial in tau and shown to be the unique cubic with "
          "H(0)=p0, H(1)=p1, H'(0)=trange*m0, H'(1)=trange*m1 (so every cubic is reproduced, for either interval orientation), grad is shown "
          "identical to d/dt of that polynomial, the early-return shortcuts equal the polynomial at tau=0,1, and the constructor slots are "
@@ -71,7 +71,7 @@ CLAIMS["C17"] = dict(
 
 CLAIMS["C03"] = dict(
     category="other", design="DESIGN.md 4/C03",
-    technique="quantity-kind (affine/direction) type checking of time arithmetic; def-use and polynomial normal forms of the commit; "
+    technique="quantity-kind (affine/direction) type checking of time arithmetic; flow analysis of the commit (rows written before the counter advances, allocator summary); def-use and polynomial normal forms of the commit; "
               "dominance of capacity tests; abstract interpretation of dt orientation over the structured control flow",
     text="Decides the structural clause of C03 for every span, direction and history at once: (1) the time arithmetic of integrate(), "
          "__fix_dt_dir, __alloc_space_steps and the dt/t0/tf setters is well-kinded (no abs/sign/scaling of absolute times, no ordering of "
@@ -94,7 +94,7 @@ CLAIMS["C04"] = dict(
          "not decided; well-kindedness is its necessary condition.")
 CLAIMS["C05"] = dict(
     category="other", design="DESIGN.md 4/C05",
-    technique="typestate abstract interpretation of the retry loop (fixpoint over abstract states, exceptional edges); normal forms and folded constants of the controller",
+    technique="typestate abstract interpretation of the retry loop (fixpoint over abstract states, exceptional edges); normal forms and folded constants of the controller; abstract interpretation of the error measure over (sense, coverage); dataflow of the tolerance scale",
     text="Decides only the second sentence of C05: on every path of RungeKuttaIntegrator.__call__ a step whose redo flag is set is never returned "
          "(it is retried inside a bounded loop or FailedToMeetTolerances is raised); the retried step is the controller's proposal bounded in magnitude by "
          "the requested step; update_timestep returns (corr*h, corr<c) with one corr and constant c<1 and the implicit-aware limiter cannot undo the "
@@ -175,7 +175,7 @@ CLAIMS["C15"] = dict(
          "recorded known findings. Not decided: the 'modest multiple' constant.")
 CLAIMS["C16"] = dict(
     category="other", design="DESIGN.md 4/C16",
-    technique="predicate abstraction of DiffRHS's Jacobian cache with exhaustive exploration of abstract states under all method sequences; cache-key discipline; argument agreement; index/layout rules",
+    technique="predicate abstraction of DiffRHS's Jacobian cache with exhaustive exploration of abstract states under all method sequences; cache-key discipline; argument agreement; index/layout rules; abstract interpretation of the finite-difference loop over Laurent polynomials",
     text="Decides: over the abstraction (initialised, cached Jacobian kind, wrapped) and EVERY sequence of jac / hook / unhook / set_jac_base_order calls, jac() never "
          "calls None, never calls the cached object with the other signature, and calls a hooked or attribute-supplied Jacobian when one is attached (witness "
          "sequences are reported); each finite-difference closure evaluates at the time stored as its cache key and jac() rebuilds it when t differs; every wrapper "
